@@ -39,9 +39,13 @@ RECON_KAPPA = 1000.0
 # number of vectors exceeds ||A|| |dt|, Hochbruck & Lubich 1997).  It is scale invariant in v.
 KRYLOV_OWN_RTOL, KRYLOV_OWN_ATOL = 1e-5, 1e-8
 # Extra clause 1e-6 ||v||: this number is NOT in the property, it is the calibration written into DESIGN §8 C18.  It is evaluated only
-# where the calibration (6 seeds x 9 families x n <= 60, ~4e5 calls) left at least a factor 10: imaginary dt (unitary propagator,
-# worst 4.4e-8 at ||A|| |dt| = 5) and real dt with ||A|| |dt| <= 2.5 (worst 7.7e-8).  For real dt with ||A|| |dt| = 5 the propagator
-# amplifies by up to e^5 and the error relative to ||v|| reaches 1.5e-6 (4e-8 relative to the result), so the clause is not stated there.
+# where it follows from the stopping rule with room to spare: the last difference of iterates is <= ~1e-5 ||result||, the accepted
+# iterate (two Lanczos steps later, j >= 2 ||A|| |dt|) is better by about (||A|| |dt| / 2j)^2 <= 0.03, i.e. <= 3e-7 ||result||.
+#   * imaginary dt (unitary propagator, ||result|| = ||v||), ||A|| |dt| <= 5: measured worst 1.1e-7 (16 seeds x 9 families x n <= 60,
+#     ~1e6 calls: factor 9);
+#   * real dt with ||A|| |dt| <= 0.1: measured worst 3e-13.
+# For real dt the propagator amplifies by up to e^{||A|| |dt|}: measured worst relative to ||v|| 2.9e-7 at ||A|| |dt| = 2.5 (factor 3.5
+# only) and 2.5e-6 at ||A|| |dt| = 5 (1e-7 relative to the result) - the clause is not stated there, the primary clause is.
 KRYLOV_RTOL = 1e-6
 
 KINDS = ("real", "complex", "eye", "same", "ones", "zeroblock", "ceye")
@@ -155,6 +159,17 @@ def _finite(*xs):
 # =========================================================================================================================
 # contracts of svd_qn / eigh_qn  -> list of (obligation id, ok, lazily formatted message)
 # =========================================================================================================================
+def _quiet(f):
+    """renormalizer switches numpy to raise on overflow/invalid (utils/log.py); the REAL functions run under that setting, but the
+    contract evaluation must turn a huge or non-finite result into a failed clause, not into an exception of the harness"""
+    def g(*a, **kw):
+        with np.errstate(all="ignore"):
+            return f(*a, **kw)
+    g.__name__ = f.__name__
+    return g
+
+
+@_quiet
 def contract_svd(out, sp, M, full, opt):
     fn, res = "svd_qn", []
     add = lambda clause, ok, what: res.append((f"post:{fn}:{clause}", bool(ok), what))
@@ -223,6 +238,7 @@ def contract_svd(out, sp, M, full, opt):
     return res
 
 
+@_quiet
 def contract_qr(out, sp, M, system, full):
     fn, res = "svd_qn", []
     add = lambda clause, ok, what: res.append((f"post:{fn}:qr_{clause}", bool(ok), what))
@@ -264,6 +280,7 @@ def contract_qr(out, sp, M, system, full):
     return res
 
 
+@_quiet
 def contract_eigh(out, sp, dm, system):
     fn, res = "eigh_qn", []
     add = lambda clause, ok, what: res.append((f"post:{fn}:{clause}", bool(ok), what))
@@ -486,6 +503,7 @@ def worker_qnr(case, led):
 # =========================================================================================================================
 # helpers of svd_qn.py: add_outer, get_qn_mask, blockrecover, blockappend, optimized_svd, add_orthonormal_basis
 # =========================================================================================================================
+@_quiet
 def contract_osvd(out, a, full, opt):
     fn, res = "optimized_svd", []
     add = lambda clause, ok, what: res.append((f"post:{fn}:{clause}", bool(ok), what))
@@ -812,7 +830,10 @@ def worker_kry(case, led):
                 rs = [("post:expm_krylov:result_shape", good, lambda: f"expected (vector of length {n}, count), got {type(out)}")]
                 if good:
                     res, j = np.asarray(out[0]), out[1]
-                    err = float(np.linalg.norm(res - ref))
+                    with np.errstate(all="ignore"):
+                        err = float(np.linalg.norm(res - ref))
+                    if not np.isfinite(err):
+                        err = float("inf")
                     if _STATS is not None:
                         sl = (dt_kind, theta, vnorm)
                         o = _STATS.get(sl, (0.0, 0.0))
@@ -822,7 +843,7 @@ def worker_kry(case, led):
                                lambda: f"||result - expm(dt A) v|| = {err:.3e} > 1e-5 ||expm(dt A) v|| + 1e-8 sqrt(n) ||v|| = {bound:.3e}  (the "
                                        f"function's own stopping tolerance; relative to ||v||: {err / nv:.2e}; ||A|| |dt| = {theta}, dt {dt_kind}, "
                                        f"||v|| = {vnorm}, ||expm(dt A) v|| = {nref:.3e}, {j} Lanczos vectors)"))
-                    if dt_kind == "imaginary" or theta <= 2.5:
+                    if dt_kind == "imaginary" or theta <= 0.1:
                         rs.append(("post:expm_krylov:accuracy_1e-6_of_start_norm", err <= KRYLOV_RTOL * nv,
                                    lambda: f"||result - expm(dt A) v|| = {err:.3e} > 1e-6 ||v|| = {KRYLOV_RTOL * nv:.3e}  (relative {err / nv:.2e}; "
                                            f"||A|| |dt| = {theta}, dt {dt_kind}, ||v|| = {vnorm}, ||expm(dt A) v|| = {nref:.3e}, {j} Lanczos vectors)"))
@@ -921,7 +942,7 @@ def check(run):
                 "contract": "first K = sum_b min(m_b, n_b) columns as above, remaining columns have s == 0, correct labels, and span the sector complement"})
     run.sample({"function": "expm_krylov", "family": "degenerate", "n": 33, "dt": "-0.125j", "norm_A": 40.0, "start": "inv2", "block_size": 17,
                 "contract": "||result - scipy.linalg.expm(dt*A) @ v|| <= 1e-5 ||expm(dt A) v|| + 1e-8 sqrt(n) ||v|| (the function's own stopping "
-                            "tolerance) and, for imaginary dt or ||A|| |dt| <= 2.5, <= 1e-6 ||v||; 1 <= vector count <= n; start vector unchanged"})
+                            "tolerance) and, for imaginary dt or ||A|| |dt| <= 0.1, <= 1e-6 ||v||; 1 <= vector count <= n; start vector unchanged"})
     run.explanation = ("Bounded runtime-contract check (Engine B) only; no proof is claimed. The label universe of the blocked decompositions is "
                        "enumerated completely up to the stated bound, the matrix entries and the Krylov inputs are structured samples. The oracles "
                        "(mask by direct label arithmetic, numpy SVD of the masked matrix, scipy.linalg.expm) share no code with the functions under contract.")
